@@ -69,14 +69,15 @@ def annotations(shape, thorough):
     """list of {path: name}.
     depth <= 2: every subset of annotated nodes with distinct names e0, e1, ..; `default` / `root` on every annotated node; (default, root) on every
                 ordered pair of annotated nodes (7-node shape, quick tier: only for subsets of <= 3 annotated nodes).
-    depth 3:    subsets of size <= 1 or >= n-1 (thorough: <= 2 or >= n-2); `default` / `root` on the annotated node of the singletons
+    depth 3:    subsets of size <= 1 or == n (thorough: <= 2 or >= n-1); `default` / `root` on the annotated node of the singletons
                 (thorough: on the first two annotated nodes of every subset, and the ordered pair)."""
     nodes = list(shape_nodes(shape))
     n = len(nodes)
     deep = shape_depth(shape) >= 3
     subs = list(itertools.product((False, True), repeat=n))
     if deep:
-        lo, hi = (2, n - 2) if thorough else (1, n)
+        # thorough: pairs of annotated nodes as well (<= 2) and all-but-one (>= n-1); `>= n-2` made the tier exceed its time budget on a loaded machine
+        lo, hi = (2, n - 1) if thorough else (1, n)
         subs = [s for s in subs if sum(s) <= lo or sum(s) >= hi]
     out = []
     for sub in subs:
